@@ -281,7 +281,7 @@ func genStruct(t *rapid.T, ty reflect.Type, o genOpts, depth int) reflect.Value 
 			}
 		case fBlock:
 			if f.vk == "one" {
-				if f.ptr && rapid.IntRange(0, 99).Draw(t, "present") >= o.presence {
+				if f.ptr && rapid.IntRange(0, 99).Draw(t, "present") < 100-o.presence {
 					continue
 				}
 				sv := genStruct(t, f.ety, o, depth+1)
